@@ -731,7 +731,7 @@ func runStorageLog(a *Analyzer, r *Results) {
 					}
 					nDel++
 					okc := onlyFromClear(f)
-					r.Check("ST.keep", props("C09", "C01", "C03", "C10", "C11"), "entries of the message logs (proposals, PREPAREs, COMMITs, votes) are removed only by the end-of-height disposal (ClearBlockHeightLogs): within a height a stored message, and with it a prepared certificate or a vote, never disappears", shortName(f)+"|delete", a.P.InstrPos(in), okc, "log entries are deleted in "+shortName(f)+", which runs outside ClearBlockHeightLogs", "W")
+					r.Check("ST.keep", props("C09", "C01", "C03", "C05", "C10", "C11"), "entries of the message logs (proposals, PREPAREs, COMMITs, votes) are removed only by the end-of-height disposal (ClearBlockHeightLogs): within a height a stored message, and with it a prepared certificate or a vote, never disappears", shortName(f)+"|delete", a.P.InstrPos(in), okc, "log entries are deleted in "+shortName(f)+", which runs outside ClearBlockHeightLogs", "W")
 				case *ssa.MapUpdate:
 					if !tainted(x.Map, map[ssa.Value]bool{}) {
 						continue
@@ -1795,12 +1795,12 @@ func (ig *ingest) cacheBookkeeping(e *Effect) {
 	ev := ig.a.NewEval(e, ig.r)
 	b := map[string]*Term{}
 	if hExpr == nil || !Match(Call("protocol.BlockHeight", Call("protocol.SignedHeader", Var("C"))), hExpr, b) {
-		ev.Verdict("F2.side", props("C17", "C08"), text, "", false, "the bookkeeping is not driven by the height of the received message: "+PP(hExpr))
+		ev.Verdict("F2.side", props("C17", "C08", "C09", "C10"), text, "", false, "the bookkeeping is not driven by the height of the received message: "+PP(hExpr))
 		return
 	}
 	C := b["C"]
 	H := Call("protocol.SignedHeader", C)
-	ev.Require("F2.side", props("C17", "C08"), text, "",
+	ev.Require("F2.side", props("C17", "C08", "C09", "C10"), text, "",
 		Eq(inst(H), Field(rmf, "instanceId")), Ne(mid(Call("protocol.Sender", C)), Field(rmf, "myMemberId")), Lt(ig.k.SHeight, ht(H)))
 }
 
